@@ -12,7 +12,10 @@ from props import c04_position as P4
 
 PROPERTY = 'C10'
 LEVEL = 'exploration'
-RULE = ('A server login script = any order/subset of {encryption request '
+RULE = ('The handler taking over a plugin request answers in explicit '
+        "or short form, with a payload or with b''; the server sends "
+        "its key in any DER form the client's parser accepts. "
+'A server login script = any order/subset of {encryption request '
         '(1024/2048-bit key, verify token 1-64 bytes, server id "-", "", '
         '20-char ids), set compression (threshold 0, 1, 64, 256, 2^31-1, '
         '-1), 0-4 plugin requests (ids incl. 0 and 2^31-1, payload 0-300 '
